@@ -623,8 +623,50 @@ var (
 
 const nCtx = 10
 
+// placements put a leaf at the first, a middle and the last position of
+// lists, dotted lists, vectors and arrays of rank 2 and 3 (contexts 100+).
+var placements = []struct {
+	kind   string
+	dims   []int
+	n      int
+	pos    int // -1: the dotted tail
+	dotted bool
+}{
+	{"list", nil, 3, 0, false}, {"list", nil, 3, 1, false}, {"list", nil, 3, 2, false},
+	{"list", nil, 2, 0, true}, {"list", nil, 2, 1, true}, {"list", nil, 2, -1, true}, {"list", nil, 3, 1, true},
+	{"vec", nil, 3, 0, false}, {"vec", nil, 3, 1, false}, {"vec", nil, 3, 2, false},
+	{"arr", []int{2, 3}, 6, 0, false}, {"arr", []int{2, 3}, 6, 4, false}, {"arr", []int{2, 3}, 6, 5, false},
+	{"arr", []int{2, 2, 3}, 12, 0, false}, {"arr", []int{2, 2, 3}, 12, 10, false}, {"arr", []int{2, 2, 3}, 12, 11, false},
+}
+
+func inPlacement(l *O, p int) *O {
+	pl := placements[p]
+	fill := []*O{leaf("sym", "p"), leaf("int", "2"), leaf("str", "s"), leaf("sym", "q"), leaf("int", "3"), leaf("kw", "k")}
+	o := &O{K: pl.kind, E: []*O{}}
+	if pl.dims != nil {
+		o.D = append([]int{}, pl.dims...)
+	}
+	for i := 0; i < pl.n; i++ {
+		if i == pl.pos {
+			o.E = append(o.E, l.clone())
+		} else {
+			o.E = append(o.E, fill[i%len(fill)].clone())
+		}
+	}
+	if pl.dotted {
+		o.T = leaf("sym", "z")
+		if pl.pos == -1 && l.K != "nil" {
+			o.T = l.clone()
+		}
+	}
+	return o
+}
+
 // inContext wraps a leaf in one of the fixed container contexts.
 func inContext(l *O, ctx int) *O {
+	if 100 <= ctx {
+		return inPlacement(l, ctx-100)
+	}
 	a := func() *O { return leaf("sym", "a") }
 	one := func() *O { return leaf("int", "1") }
 	switch ctx {
@@ -817,6 +859,24 @@ func initCatalogue() {
 		e("list", s("defun"), s("f"), e("list", s("x")), leaf("str", "doc"), e("list", s("+"), s("x"), i(1))),
 		e("list", s("let"), e("list", e("list", s("x"), i(1))), s("x")),
 	)
+	// every leaf with a listed finding at the first, a middle and the last position of every kind of container,
+	// so that failures that depend on where the leaf sits show on every seed
+	var placeCtx []int
+	for k := range placements {
+		placeCtx = append(placeCtx, 100+k)
+	}
+	for _, n := range []string{".", "..", "...", "1", "-1", "1.5", "1/2", "1e5", "1d0", "+1", "@2024-01-01", "", "foo bar", "a(b", "a)b", "a;b", "a'b", "a`b", "a,b", "a\"b", "a#b",
+		"a|b", "a\\b", "a?b", "a!b", "a&b", "a/b", "a[b", "a{b", "a\tb", "a\nb", "a\x01b", "a\x7fb", "\u00e9", "(", ")", "'", ";", "quote"} {
+		add(placeCtx, leaf("sym", n))
+	}
+	for _, n := range []string{"", "a b", "a(b", "a?b", "a|b", "\u00e9", "1"} {
+		add(placeCtx, leaf("kw", n))
+	}
+	add(placeCtx, leaf("chr", "0"), leaf("chr", "40"), leaf("chr", "41"), leaf("chr", "59"), leaf("chr", "34"), leaf("chr", "92"),
+		leaf("str", "q\"uote"), leaf("str", "back\\slash"), leaf("str", "ctl\x01"), leaf("ratio", "1/2"), leaf("ratio", "-18446744073709551617/2"),
+		leaf("sf", "1.5"), leaf("sf", "1"), leaf("df", "1"), leaf("df", "1.5"), leaf("lf", lfGrid[3]), leaf("lf", lfGrid[1]),
+		&O{K: "nil"}, &O{K: "t"}, &O{K: "arr", D: []int{}, E: []*O{leaf("int", "7")}}, &O{K: "arr", D: []int{2, 0}, E: []*O{}}, &O{K: "vec", E: []*O{}})
+
 	// wide and deep structures for the layout tree
 	wide := &O{K: "list"}
 	for k := 0; k < 6; k++ {
